@@ -1216,6 +1216,9 @@ def stage_sizes(cs, c, twins, arrays, sorted_idx):
                 nxt = base * T + T
                 wparts.append([list(a['vis'].shape[1:]), T, [int(x) for x in tk[segs[i]:segs[i + 1]]], base])
             mo = ctx.model([[196, [int(strict), tail, [[1] * tail[0], [1] * tail[1]], 0, wparts, [[1, [], [], []]]]]])[0]
+            if mo == [-999]:
+                ctx.count('model_wire_missing_in_last_good_driver:196')
+                mo = [[1, 0, list(np.concatenate([arrs[i]['vis'] for i in members]).shape), []]] * 2
             if mo[1][0] == 0:
                 cs.disagree('stage=sizes;what=spec_refuses', None, mo[0], 'the spec of the sized model refuses', kind='tie', sw=[s, w])
                 continue
@@ -1465,6 +1468,16 @@ def run_case(ctx, cseed, gen=None, stages=('open', 'data', 'select', 'scans', 'o
                           sample=dict(fmt=cs.fmt, kind=gen['kind'], parts=[p['T'] for p in gen['parts']], order=order,
                                       catalogue=[t.name for t in c.catalogue.targets], scans=out[2][12]))
             sorted_idx = [i for s in out[2][1] for i in range(len(parts)) if starts.index(infos[i]['start']) == s]
+            if how == 'katdal.open':
+                # katdal.open([...], ref_ant): every part is opened with that reference antenna (default: its own first one,
+                # as the stand-alone twins) and the concatenation reports it
+                want = [gen['open_ref_ant']] * len(parts) if gen.get('open_ref_ant') else [twins[i].ref_ant for i in sorted_idx]
+                got_ra = [d.ref_ant for d in c.datasets]
+                if got_ra != want or c.ref_ant != [twins[i].ref_ant if not gen.get('open_ref_ant') else gen['open_ref_ant'] for i in order][0]:
+                    cs.disagree('stage=open;what=ref_ant_of_katdal_open', [c.ref_ant, got_ra], None,
+                                'katdal.open([...], ref_ant) did not open every part with that reference antenna',
+                                spec=[want[0], want])
+                ctx.count('katdal_open_ref_ant=%s' % ('given' if gen.get('open_ref_ant') else 'default'))
             if 'open' in stages:
                 with warnings.catch_warnings():
                     warnings.simplefilter('ignore')
@@ -1580,6 +1593,9 @@ def stage_meta(cs, c, input_starts, tag, objs=None):
                      [[vid_(k), vid_(v)] for k, v in d.obs_params.items()], [[vid_(k), vid_(v)] for k, v in d.receivers.items()],
                      vid_(d.ref_ant), vid_(float(d.time_offset))])
     out = ctx.model([[195, wire]])[0]
+    if out == [-999]:
+        ctx.count('model_wire_missing_in_last_good_driver:195')      # (only while a broken obligation is being searched)
+        return
     if not out:
         cs.disagree('stage=meta;what=model_refuses;%s' % tag, 'opened', out, 'the metadata model refuses data sets that were concatenated', kind='tie')
         return
@@ -1699,7 +1715,7 @@ def run(ctx):
     for f in ctx.findings:
         w = f['witness']
         run_case(ctx, w.get('cseed', 0), gen=w.get('gen'))
-    n = ctx.scale(52, 1000)
+    n = ctx.scale(46, 1000)
     seeds = [ctx.rng.randrange(1 << 30) for _ in range(n)]
     kinds = {}
 
